@@ -11,7 +11,7 @@ Import ListNotations.
 From BB Require Import BN Brute SpaceFacts TrapFacts PercolateFacts AttractorFacts Diagram Invariants Checks Filter
   Strict PetriNet Control Meta FilterFacts PetriNetFacts TrappistFacts DiagramStruct DiagramSem1 DiagramCache
   DiagramDepth DiagramComplete Termination ControlFacts MetaFacts Candidates StrictFacts MinExpandFacts CandidatesFacts SymbolicTest SymbolicTestFacts Signed ReductionFacts ControlFacts2 Main Blocks BlocksFacts ObsFacts OwnerFacts CandidatesTerm
-  PartialOwner BlockMath BlockComplete ASeeds ASeedsFacts LogChecks SkipRule SkipRuleFacts Names NamesFacts Perm PermFacts SCC SCCFacts SCCStruct ControlFacts3 SCCTerm FilterSym.
+  PartialOwner BlockMath BlockComplete ASeeds ASeedsFacts LogChecks SkipRule SkipRuleFacts Names NamesFacts Perm PermFacts SCC SCCFacts SCCStruct ControlFacts3 SCCTerm FilterSym Main2 StrategyFacts ControlFacts4.
 
 Theorem C20_find_node_exact : forall (N : net) (d : sd) (X : list (option bool)) (i : nat), SWF N d -> length X = nvars N -> find_node d X = Some i <-> i < size d /\ n_space (get d i) = X.
 Proof. exact find_node_exact. Qed.
@@ -45,6 +45,13 @@ Proof. exact space_key_inj. Qed.
 Theorem C20_is_subgraph_spec : forall (N : net) (a b : sd), SWF N a -> SWF N b -> NoStubEdges a -> NoStubEdges b -> Rooted a -> is_subgraph_b a b = true <-> (forall X : space, In X (spaces a) -> In X (spaces b)) /\ (forall e : edge, In e (sd_edges a) -> exists e' : edge, In e' (sd_edges b) /\ n_space (get b (e_src e')) = n_space (get a (e_src e)) /\ n_space (get b (e_dst e')) = n_space (get a (e_dst e))).
 Proof. exact is_subgraph_b_spec. Qed.
 
+(* depth = longest root path after block expansion (source shortcut included) *)
+Theorem C20_block_expansion_depth : forall (fuel : nat) (N : net) (cfg : config) (d : sd) (maa opt : bool) (sz : option nat) (tape : list bool), 1 <= max_motifs cfg -> DiagramDepth.DInv N d -> let d' := fst (expand_block fuel N cfg d maa opt sz tape) in DepthOK d' /\ EdgeDepth d'.
+Proof. exact expand_block_DepthOK. Qed.
+
+Theorem C20_aseeds_expansion_depth : forall (fuel : nat) (N : net) (cfg : config) (d : sd) (sz : option nat) (min_tape : list space) (tape : list (list nat)), 1 <= max_motifs cfg -> DiagramDepth.DInv N d -> let d' := fst (expand_aseeds fuel N cfg d sz min_tape tape) in DepthOK d' /\ EdgeDepth d'.
+Proof. exact expand_aseeds_DepthOK. Qed.
+
 Print Assumptions C20_find_node_exact.
 Print Assumptions C20_find_node_none.
 Print Assumptions C20_step_extends.
@@ -55,3 +62,5 @@ Print Assumptions C20_depth_attained.
 Print Assumptions C20_raise_depth_spec.
 Print Assumptions C20_space_key_inj.
 Print Assumptions C20_is_subgraph_spec.
+Print Assumptions C20_block_expansion_depth.
+Print Assumptions C20_aseeds_expansion_depth.
